@@ -795,6 +795,52 @@ def msgReplyAt (H : Bytes → UInt64) (W : World) (qtype : UInt16) (cd hasECS : 
       additionalAnswer (fun t => msgReplyAt H W qtype cd hasECS d t qclass none) name qtype e
     | o => MsgReply.ofOutcome o
 
+/-! ### which entries the decoded body HITS while answering (each hit runs `handleCacheHit`,
+where a due entry claims its background refresh with a copy of the request at hand) -/
+
+/-- hits made by the sub-queries of the `lookup:` loop, in order; mirrors `chaseLoop`. -/
+def chaseLoopVisits (sub : Bytes → MsgReply) (subV : Bytes → List (Bytes × Entry)) (qname : Bytes) (qtype : UInt16) :
+    Nat → Bytes → List Bytes → List (Bytes × Entry)
+  | 0, _, _ => []
+  | fuel + 1, target, targets =>
+    if targets.contains target then [] else
+    subV target ++
+      match sub target with
+      | MsgReply.answer es =>
+        let newTarget := lastCnameTarget es
+        if newTarget == qname then []
+        else if es.any (·.alias.isSome) && decide (fuel > 0) && !(es.any (hasQtypeRecord · qtype)) then
+          chaseLoopVisits sub subV qname qtype fuel newTarget (targets ++ [target])
+        else []
+      | _ => []
+
+/-- hits made below `additionalAnswer`; mirrors it. -/
+def additionalVisits (sub : Bytes → MsgReply) (subV : Bytes → List (Bytes × Entry)) (qname : Bytes) (qtype : UInt16)
+    (e : Entry) : List (Bytes × Entry) :=
+  if qtype == 5 || qtype == 43 then [] else
+  match e.alias with
+  | none => []
+  | some t =>
+    match present t with
+    | none => []
+    | some tp =>
+      if tp == qname then [] else if qtype == 16 then []
+      else chaseLoopVisits sub subV qname qtype maxCnameHops tp []
+
+/-- every (question name, entry) the decoded body hits for one request, outermost first. -/
+def msgVisitsAt (H : Bytes → UInt64) (W : World) (qtype : UInt16) (cd hasECS : Bool) :
+    Nat → Bytes → UInt16 → Scope → List (Bytes × Entry)
+  | 0, name, qclass, client =>
+    match serveMsg H W name qtype qclass cd client hasECS with
+    | Outcome.hit [e] => [(name, e)]
+    | _ => []
+  | d + 1, name, qclass, client =>
+    match serveMsg H W name qtype qclass cd client hasECS with
+    | Outcome.hit [e] =>
+      (name, e) :: additionalVisits (fun t => msgReplyAt H W qtype cd hasECS d t qclass none)
+        (fun t => msgVisitsAt H W qtype cd hasECS d t qclass none) name qtype e
+    | _ => []
+
 /-- a client request through the decoded body of `Cache.ServeDNS`. -/
 def serveMsgFull (H : Bytes → UInt64) (W : World) (name : Bytes) (qtype qclass : UInt16) (cd : Bool)
     (client : Scope) (hasECS : Bool) : MsgReply :=
